@@ -336,7 +336,9 @@ func tryFindPrefix(node *RegexNode, vsb *bytes.Buffer) bool {
 			limit = node.M
 		}
 		for i := 0; i < limit; i++ {
-			if tryFindPrefix(node.Children[0], vsb) {
+			// stop as soon as an iteration's prefix is not the whole iteration: nothing
+			// can be appended after a partially known iteration
+			if !tryFindPrefix(node.Children[0], vsb) {
 				return false
 			}
 		}
